@@ -329,6 +329,12 @@ impl Module {
                     let decl = &mut module.global_registry[id.0 as usize];
                     let set = decl.lang_slot.set.unwrap_or(default_set);
 
+                    // Only extern globals are resources of the pipeline
+                    // A static or groupshared variable of an object type is not bound by the api
+                    if decl.storage_class != GlobalStorage::Extern {
+                        return;
+                    }
+
                     // If static samplers are implemented purely in shader source then do not give them slots
                     if decl.static_sampler.is_some() && !params.static_samplers_have_slots {
                         return;
